@@ -394,7 +394,9 @@ func init() {
 				}})
 			// message-length field: every value of each of the 4 length bytes, and short inputs
 			sp = append(sp, h.Space{Name: "message-length-field-and-short-inputs", Count: 4*256 + 20,
-				Describe: func(i uint64) interface{} { return fmt.Sprintf("length byte %d = %d / input of %d bytes", i/256, i%256, int(i)-1024) },
+				Describe: func(i uint64) interface{} {
+					return fmt.Sprintf("length byte %d = %d / input of %d bytes", i/256, i%256, int(i)-1024)
+				},
 				Run: func(c *h.Ctx, i uint64) {
 					x := hdr(1, 1, []byte{0xA5, 0x01, 0x07})
 					if i < 1024 {
